@@ -757,3 +757,31 @@ Example C19_excludeX_tables_conservative_nonvacuous :
   exists r', ExcludeRealmX (true, true) xex_realm [([109;46]%N ++ xex_users ++ [46;105]%N)%list] = EOk r'
     /\ proj_realm r' = [mkSchema [109]%N [mkTable xex_users false false [] None [] [] []]].
 Proof. eexists. split; vm_compute; reflexivity. Qed.
+
+(** ** C19_skip_census (round 5, goal 3).  Every place where the generic differ and the three dialect differs make a
+    [schema.Change] (gen/Gen_ChangeSites.v: every composite literal [&schema.<Kind>{...}] of sql/internal/sqlx/diff.go,
+    sql/sqlite/diff.go, sql/mysql/diff_oss.go, sql/postgres/diff_oss.go, re-read on every run) either
+    - is an argument of [AddOrSkip], or
+    - is appended to a slice that the same function then feeds element by element to [AddOrSkip]
+      (columnDiff, indexDiffT: [for _, c := range all { changes = opts.AddOrSkip(changes, c) }]), or
+    - sits in a function all of whose calls are arguments of [AddOrSkip] (addTableChange, addViewChange) or sit in
+      such a loop-guarded function (the dialects' ColumnChange, called by columnDiff only), or
+    - makes a kind the diff policy cannot name (gen/Gen_SkipKinds.v);
+    and the kinds made outside every AddOrSkip route are exactly attribute and check changes
+    (AddAttr/DropAttr/ModifyAttr, AddCheck/DropCheck/ModifyCheck) -- the hypothesis [attr_changes_only] of C19_skip,
+    now read off the sources of all three dialects.  A finite check over generated lists; the classification of a
+    literal's context by its parent node (genchanges.go) is syntactic and trusted. *)
+From Atlas Require Import gen.Gen_ChangeSites Excl.SkipCensus.
+
+Theorem C19_skip_census :
+  census_changes = true
+  /\ forallb (fun k => negb (policy_kind k)) unguarded_kinds = true
+  /\ forallb (fun k => in_strs k ["AddAttr"; "DropAttr"; "ModifyAttr"; "AddCheck"; "DropCheck"; "ModifyCheck"]%string) unguarded_kinds = true.
+Proof. split; [vm_compute; reflexivity|]. split; vm_compute; reflexivity. Qed.
+Print Assumptions C19_skip_census.
+
+Example C19_skip_census_nonvacuous :
+  gen_change_literals <> [] /\ gen_addorskip_loops = [("columnDiff", "all"); ("indexDiffT", "all")]%string
+  /\ calls_guarded "addTableChange"%string = true /\ calls_guarded "ColumnChange"%string = true
+  /\ calls_guarded "TableAttrDiff"%string = false /\ unguarded_kinds <> [].
+Proof. split; [vm_compute; discriminate|]. split; [reflexivity|]. repeat split; try (vm_compute; reflexivity). vm_compute. discriminate. Qed.
